@@ -216,8 +216,29 @@ def F12():
   return 'large-model form: buffers %s do not hold their constants at the recorded offsets' % bad if bad else None
 
 
+def F13():
+  """concat([x, x, z]) with the shipped static-range recipes."""
+  import tensorflow as tf
+  m = tf.Module()
+  m.f = tf.function(lambda x, z: {'out': tf.concat([x, x, z], axis=1)})
+  spec = tf.TensorSpec([2, 8], tf.float32)
+  model = tf.lite.TFLiteConverter.from_concrete_functions([m.f.get_concrete_function(spec, spec)], m).convert()
+  it = tfl_interpreter_utils.create_tfl_interpreter(bytes(model))
+  names = list(it.get_signature_runner('serving_default').get_input_details().keys())
+  rng = np.random.default_rng(1)
+  data = [{n: rng.normal(size=(2, 8)).astype(np.float32) for n in names} for _ in range(3)]
+  bad = []
+  for rp in ('default_a8w8_recipe.json', 'default_a16w8_recipe.json'):
+    qt = quantizer.Quantizer(bytearray(model), R + rp)
+    try:
+      qt.quantize(qt.calibrate(data, signature_key='serving_default'))
+    except ValueError as e:
+      bad.append('%s: ValueError %s' % (rp, e))
+  return '; '.join(bad) or None
+
+
 if __name__ == '__main__':
-  cases = sys.argv[1:] or ['F%d' % i for i in range(1, 11)] + ['F6b', 'F12']
+  cases = sys.argv[1:] or ['F%d' % i for i in range(1, 11)] + ['F6b', 'F12', 'F13']
   for c in cases:
     try:
       r = globals()[c]()
